@@ -108,6 +108,52 @@ theorem open_tag_flip (key nonce dst pt ad tag' : Bytes) (hn : nonce.length = 12
   simp only [hlen, e1]
   rw [← hct, List.take_left, List.drop_left, if_neg hne]
 
+
+/-- non-vacuity of `open_tag_flip` / `C02_partial`: the hypotheses are satisfiable (a 3-byte message, 1-byte ad) -/
+example : ∃ out, aeadOpen (zeros 32) (zeros 12) [9] ([1, 2, 3] ++ zeros 13) [7] = .err out ∨
+    aeadOpen (zeros 32) (zeros 12) [9] ([1, 2, 3] ++ zeros 13) [7] = .ok out := by
+  cases h : aeadOpen (zeros 32) (zeros 12) [9] ([1, 2, 3] ++ zeros 13) [7] with
+  | ok r => exact ⟨r, Or.inr rfl⟩
+  | err o => exact ⟨o, Or.inl rfl⟩
+  | panic =>
+    have := (open_err_iff (zeros 32) (zeros 12) [9] ([1, 2, 3] ++ zeros 13) [7] (by simp [zeros]) (by simp [zeros, maxCiphertext])
+      (by simp))
+    by_cases ht : (([1, 2, 3] : Bytes) ++ zeros 13).drop ((([1, 2, 3] : Bytes) ++ zeros 13).length - 16)
+        = expectedTag (zeros 32) (zeros 12) [7] ([1, 2, 3] ++ zeros 13)
+    · have h2 := (open_iff (zeros 32) (zeros 12) [9] ([1, 2, 3] ++ zeros 13) [7] _ (by simp [zeros])
+        (by simp [zeros, maxCiphertext]) (by simp)).mpr ⟨by simp [zeros], ht, rfl⟩
+      rw [h] at h2; cases h2
+    · obtain ⟨o, ho⟩ := this.mpr (Or.inr ht)
+      rw [h] at ho; cases ho
+
+/-- presenting a sealed message under ANOTHER key and/or nonce: accepted exactly when the Poly1305 tag under the
+    other one-time key happens to coincide — the decision is still "recomputed tag = presented tag"; that the two
+    one-time keys give different tags is the cryptographic remainder -/
+theorem open_other_key_iff (key nonce key' nonce' dst pt ad ad' : Bytes) (hn' : nonce'.length = 12)
+    (hp : pt.length ≤ maxPlaintext) (ha' : ad'.length < 2 ^ 64) :
+    (∃ r, aeadOpen key' nonce' dst (sealSpec key nonce pt ad) ad' = .ok r) ↔
+      C04.tagSpec (polyKey key nonce) (macData ad (C03.xorStream key nonce 1 pt))
+        = C04.tagSpec (polyKey key' nonce') (macData ad' (C03.xorStream key nonce 1 pt)) := by
+  have hct : (C03.xorStream key nonce 1 pt).length = pt.length := xorStream_length ..
+  have hl : (sealSpec key nonce pt ad).length = pt.length + 16 := by
+    simp [sealSpec, hct, C04.tagSpec_length]
+  have hc : (sealSpec key nonce pt ad).length ≤ maxCiphertext := by
+    simp only [maxPlaintext] at hp; simp only [hl, maxCiphertext]; omega
+  have e1 : pt.length + 16 - 16 = pt.length := by omega
+  have ht : (sealSpec key nonce pt ad).take ((sealSpec key nonce pt ad).length - 16) = C03.xorStream key nonce 1 pt := by
+    rw [hl, e1]; simp only [sealSpec]; rw [← hct, List.take_left]
+  have hd : (sealSpec key nonce pt ad).drop ((sealSpec key nonce pt ad).length - 16)
+      = C04.tagSpec (polyKey key nonce) (macData ad (C03.xorStream key nonce 1 pt)) := by
+    rw [hl, e1]; simp only [sealSpec]; rw [← hct, List.drop_left]
+  constructor
+  · rintro ⟨r, hr⟩
+    have := (open_iff key' nonce' dst _ ad' r hn' hc ha').mp hr
+    rw [expectedTag, ht, hd] at this
+    exact this.2.1
+  · intro h
+    refine ⟨_, (open_iff key' nonce' dst _ ad' _ hn' hc ha').mpr ⟨by omega, ?_, rfl⟩⟩
+    rw [expectedTag, ht, hd]; exact h
+
 /-! ### the framing of the MAC input is injective -/
 
 theorem pad16_length (x : Bytes) : (pad16 x).length = x.length + (16 - x.length % 16) % 16 := by
@@ -175,6 +221,33 @@ theorem xopen_eq (key nonce dst c ad : Bytes) (hn : nonce.length = 24) :
   have h12 : (C03.xnonce nonce).length = 12 := by simp [C03.xnonce, zeros, hn]
   simp only [xaeadOpen, aeadOpen, hn, h12, bne_self_eq_false, Bool.false_eq_true, if_false]
   rfl
+
+
+/-- XChaCha20-Poly1305: a tag-only modification is rejected unconditionally -/
+theorem xopen_tag_flip (key nonce dst pt ad tag' : Bytes) (hn : nonce.length = 24) (hp : pt.length ≤ maxPlaintext)
+    (ha : ad.length < 2 ^ 64) (hl : tag'.length = 16)
+    (hne : tag' ≠ C04.tagSpec (polyKey (C03.xkey key nonce) (C03.xnonce nonce))
+      (macData ad (C03.xorStream (C03.xkey key nonce) (C03.xnonce nonce) 1 pt))) :
+    xaeadOpen key nonce dst (C03.xorStream (C03.xkey key nonce) (C03.xnonce nonce) 1 pt ++ tag') ad
+      = .err (zeros pt.length) := by
+  rw [xopen_eq _ _ _ _ _ hn]
+  exact open_tag_flip _ _ dst pt ad tag' (by simp [C03.xnonce, zeros, hn]) hp ha hl hne
+
+/-- XChaCha20-Poly1305: modified (ad, ct) with the tag kept is rejected unless the Poly1305 tags collide -/
+theorem xC02_partial (key nonce dst pt ad ad' ct' : Bytes) (hn : nonce.length = 24)
+    (hc' : ct'.length ≤ maxPlaintext) (ha' : ad'.length < 2 ^ 64)
+    (hnocoll : C04.tagSpec (polyKey (C03.xkey key nonce) (C03.xnonce nonce)) (macData ad' ct')
+      ≠ C04.tagSpec (polyKey (C03.xkey key nonce) (C03.xnonce nonce))
+          (macData ad (C03.xorStream (C03.xkey key nonce) (C03.xnonce nonce) 1 pt))) :
+    xaeadOpen key nonce dst (ct' ++ C04.tagSpec (polyKey (C03.xkey key nonce) (C03.xnonce nonce))
+        (macData ad (C03.xorStream (C03.xkey key nonce) (C03.xnonce nonce) 1 pt))) ad'
+      = .err (zeros ct'.length) := by
+  rw [xopen_eq _ _ _ _ _ hn]
+  exact C02_partial _ _ dst pt ad ad' ct' (by simp [C03.xnonce, zeros, hn]) hc' ha' hnocoll
+
+theorem xopen_short (key nonce dst c ad : Bytes) (hn : nonce.length = 24) (h : c.length < 16) :
+    xaeadOpen key nonce dst c ad = .err [] := by
+  simp [xaeadOpen, hn, h]
 
 /-! ### NaCl secretbox / box -/
 
@@ -251,6 +324,30 @@ theorem secretbox_tag_flip (out ct tag' nonce key : Bytes) (hl : tag'.length = 1
   have h1 : (tag' ++ ct).length = 16 + ct.length := by simp [hl]
   rw [if_neg (by omega)]
   rw [← hl, List.drop_left, List.take_left, if_neg (fun h => hne h.symm)]
+
+
+/-- secretbox: a modified ciphertext with the tag kept (incl. truncation / extension of the ciphertext part) is
+    rejected unless the Poly1305 tags of the two different ciphertexts collide under the one-time key -/
+theorem secretbox_partial (out ct ct' nonce key : Bytes)
+    (hnocoll : C04.tagSpec (sbPolyKey key nonce) ct' ≠ C04.tagSpec (sbPolyKey key nonce) ct) :
+    C10.openGo out (C04.tagSpec (sbPolyKey key nonce) ct ++ ct') nonce key = .fail := by
+  rw [secretbox_open_eq]
+  have hl : (C04.tagSpec (sbPolyKey key nonce) ct).length = 16 := C04.tagSpec_length _ _
+  rw [if_neg (by simp [hl])]
+  rw [← hl, List.drop_left, List.take_left, if_neg hnocoll]
+
+theorem secretbox_short (out box nonce key : Bytes) (h : box.length < 16) : C10.openGo out box nonce key = .fail := by
+  rw [secretbox_open_eq, if_pos h]
+
+/-- non-vacuity: a 16-byte box whose tag is wrong exists for every key (one of the two candidate tags differs) -/
+example (out nonce key : Bytes) : ∃ box, box.length = 16 ∧ C10.openGo out box nonce key = .fail := by
+  by_cases h : zeros 16 = C04.tagSpec (sbPolyKey key nonce) []
+  · refine ⟨1 :: zeros 15, by simp [zeros], ?_⟩
+    have := secretbox_tag_flip out [] (1 :: zeros 15) nonce key (by simp [zeros]) (by
+      rw [← h]; simp [zeros, List.replicate_succ])
+    simpa using this
+  · have := secretbox_tag_flip out [] (zeros 16) nonce key (by simp [zeros]) h
+    exact ⟨zeros 16, by simp [zeros], by simpa using this⟩
 
 /-- `box.Open` / `OpenAfterPrecomputation` = `secretbox.Open` under the precomputed key: the same decision -/
 theorem box_open_eq (out box nonce : Bytes) (dh : Option Bytes) :
